@@ -253,3 +253,40 @@ theorem cancelledOK_get (ca : Nat × Dur) (ws : List Dur) :
         have := ih (k0 + 1) h.2 i w (by simpa using hw) (by simp at hlen ⊢; omega)
         have e : k0 + 1 + i = k0 + (i + 1) := by omega
         rwa [e] at this
+
+theorem evLe_iff (a b : Nat × Dur) : evLe a b = true ↔ (a.1 < b.1 ∨ (a.1 = b.1 ∧ a.2 ≤ b.2)) := by
+  simp [evLe]
+
+theorem earlier_right_le (x : Option (Nat × Dur)) (e : Nat × Dur) :
+    ∃ e', earlier x (some e) = some e' ∧ evLe e' e = true := by
+  cases x with
+  | none => exact ⟨e, rfl, by rw [evLe_iff]; omega⟩
+  | some a =>
+    simp only [earlier]
+    by_cases h : evLe a e = true
+    · exact ⟨a, by simp [h], h⟩
+    · exact ⟨e, by simp [h], by rw [evLe_iff]; omega⟩
+
+theorem earlier_left_le (e : Nat × Dur) (y : Option (Nat × Dur)) :
+    ∃ e', earlier (some e) y = some e' ∧ evLe e' e = true := by
+  cases y with
+  | none => exact ⟨e, rfl, by rw [evLe_iff]; omega⟩
+  | some b =>
+    simp only [earlier]
+    by_cases h : evLe e b = true
+    · exact ⟨e, by simp [h], by rw [evLe_iff]; omega⟩
+    · refine ⟨b, by simp [h], ?_⟩
+      rw [evLe_iff] at h ⊢
+      omega
+
+/-- with the stop signal wired to the export context, that context is done no later than the stop signal —
+whatever the client timeout, the caller and the deadline do -/
+theorem exportCtxDone_le_stop (timeout : Dur) (caller deadline : Option (Nat × Dur)) (e : Nat × Dur) :
+    ∃ e', exportCtxDone .cancelsExport timeout caller (some e) deadline = some e' ∧ evLe e' e = true := by
+  simp only [exportCtxDone]
+  obtain ⟨e1, h1, l1⟩ := earlier_left_le e (if timeout > 0 then deadline else none)
+  rw [h1]
+  obtain ⟨e2, h2, l2⟩ := earlier_right_le caller e1
+  refine ⟨e2, h2, ?_⟩
+  rw [evLe_iff] at l1 l2 ⊢
+  omega
